@@ -1,7 +1,10 @@
 CONSTANTS
   N = 3
   MaxCmd = 2
+  MaxVar = 1
+  NCtx = 0
+  HookKinds = {"none"}
 SPECIFICATION Spec
-INVARIANTS CommandsAfterDependencies StopsAtFailure FinalOK RunOnlyWhileStageRunning
+INVARIANTS CommandsAfterDependencies StopsAtFailure FinalOK RunOnlyWhileStageRunning UpBeforeUse DownAfterAll OneUpAtATime
 PROPERTY Terminates
 CHECK_DEADLOCK FALSE
